@@ -233,6 +233,12 @@ func buildMoov(spec *ProgSpec) []byte {
 		if movDur > maxDur {
 			maxDur = movDur
 		}
+		if total > 0xffffffff { // 64-bit durations need version 1 headers
+			lib.Mdia.Mdhd.Version = 1
+		}
+		if movDur > 0xffffffff {
+			lib.Tkhd.Version = 1
+		}
 		switch tr.Media {
 		case "video":
 			if err := lib.SetAVCDescriptor("avc1", [][]byte{mustHex(spsHex)}, [][]byte{mustHex(ppsHex)}, true); err != nil {
@@ -266,11 +272,17 @@ func buildMoov(spec *ProgSpec) []byte {
 		parts := [][]byte{enc(lib.Tkhd)}
 		if tr.Edts {
 			elst := &mp4.ElstBox{Entries: []mp4.ElstEntry{{SegmentDuration: movDur, MediaTime: 0, MediaRateInteger: 1}}}
+			if movDur > 0xffffffff {
+				elst.Version = 1
+			}
 			parts = append(parts, tableref.Box("edts", enc(elst)))
 		}
 		parts = append(parts, mdia)
 		traks = append(traks, tableref.Box("trak", parts...))
 	}
 	mvhd.Duration = maxDur
+	if maxDur > 0xffffffff {
+		mvhd.Version = 1
+	}
 	return tableref.Box("moov", append([][]byte{enc(mvhd)}, traks...)...)
 }
